@@ -23,6 +23,7 @@ import (
 	middleware_pb "com.tuntun.rangers/node/src/middleware/pb"
 	"com.tuntun.rangers/node/src/middleware/types"
 	"com.tuntun.rangers/node/src/network"
+	"errors"
 	"github.com/golang/protobuf/proto"
 	"strconv"
 )
@@ -583,7 +584,11 @@ func unMarshalBlockMsgResponse(b []byte) (*blockMsgResponse, error) {
 	if e != nil {
 		return nil, e
 	}
-	bmr := blockMsgResponse{IsLastBlock: *message.IsLast, Block: types.PbToBlock(message.Block)}
+	block := types.PbToBlock(message.Block)
+	if block == nil {
+		return nil, errors.New("unMarshalBlockMsgResponse: missing or malformed block")
+	}
+	bmr := blockMsgResponse{IsLastBlock: *message.IsLast, Block: block}
 	bmr.SignInfo = pbToSignData(*message.SignInfo)
 	return &bmr, nil
 }
